@@ -231,8 +231,16 @@ pub fn run(args: &Args, report: &mut Report) {
                     r.case(verdict, None, || d);
                 });
             }
-            let out = run_program(&g, batch, layout, policy, false);
+            let log_links = prop == "C08" || prop == "C09";
+            let out = run_program(&g, batch, layout, policy, log_links);
             crate::run::clear_no_return();
+            if log_links {
+                // evidence: at every two-input block, which input delivered its last end-of-iteration
+                // marker first (per consumer replica, in the order its own thread received them)
+                for (class, n) in binary_end_orders(&out.log) {
+                    report.count(&format!("two_input_blocks[{class}]"), n);
+                }
+            }
             let h = mix(phash, hash_str(&layout.name()) ^ hash_str(&format!("{batch:?}{pname}")));
             report.count("jobs", 1);
             report.count("probe_traces", out.stats.traces);
@@ -281,4 +289,45 @@ pub fn run(args: &Args, report: &mut Report) {
     for (k, v) in hist {
         report.count(&format!("ops[{k}]"), v);
     }
+}
+
+/// For every replica of a block with two upstream blocks: did the input from the upstream block
+/// with the smaller id ("A") or the larger id ("B") end (last FlushAndRestart received) first?
+pub fn binary_end_orders(log: &crate::obs::JobLog) -> Vec<(&'static str, u64)> {
+    use crate::obs::LinkEv;
+    use std::collections::BTreeMap;
+    let mut a_first = 0u64;
+    let mut b_first = 0u64;
+    let mut interleaved = 0u64;
+    for (_, evs) in &log.link_events {
+        // per consumer replica: sequence of (prev block, is_far) in arrival order
+        let mut per: BTreeMap<crate::obs::C3, Vec<(u64, bool, bool)>> = BTreeMap::new();
+        for ev in evs {
+            if let LinkEv::Recv { at, elems, .. } = ev {
+                let far = elems.iter().any(|e| e.kind == renoir::verif::KIND_FLUSH_AND_RESTART);
+                let data = elems.iter().any(|e| e.kind == renoir::verif::KIND_ITEM || e.kind == renoir::verif::KIND_TIMESTAMPED);
+                per.entry(at.0).or_default().push((at.1, far, data));
+            }
+        }
+        for (_, seq) in per {
+            let mut prevs: Vec<u64> = seq.iter().map(|x| x.0).collect();
+            prevs.sort();
+            prevs.dedup();
+            if prevs.len() != 2 {
+                continue;
+            }
+            let last_far = |b: u64| seq.iter().rposition(|x| x.0 == b && x.1);
+            match (last_far(prevs[0]), last_far(prevs[1])) {
+                (Some(a), Some(b)) if a < b => a_first += 1,
+                (Some(_), Some(_)) => b_first += 1,
+                _ => {}
+            }
+            // did data of the two inputs alternate at least twice?
+            let sides: Vec<u64> = seq.iter().filter(|x| x.2).map(|x| x.0).collect();
+            if sides.windows(2).filter(|w| w[0] != w[1]).count() >= 2 {
+                interleaved += 1;
+            }
+        }
+    }
+    vec![("input A ended first", a_first), ("input B ended first", b_first), ("data of both inputs interleaved", interleaved)]
 }
